@@ -47,7 +47,9 @@ Step(e) ==
               [] hd.st = "closed" -> F(o.cls = "closed", {"C13"}, e, <<"closed-handle-usable", h>>, "closed", o.cls)
               [] OTHER -> 0
         \* registry
-        fReg(n) == F((Registered(N, n) <=> n \in SeqToSet(e.names)) /\ e.reg[n] = N.reg[n].cnt, {"C13"}, e,
+        \* (the registry's internal count is recorded for diagnosis only: the statements speak of what handles can do,
+        \*  which the per-handle checks decide)
+        fReg(n) == F(Registered(N, n) <=> n \in SeqToSet(e.names), {"C13"}, e,
                      <<"registry", n>>, <<Registered(N, n), N.reg[n].cnt>>, <<n \in SeqToSet(e.names), e.reg[n]>>)
         \* data on disk exists exactly for the stores the specification has
         fDir(n, u) == F(e.dirs[n \o "/" \o u] = N.store[n][u].exists, {"C13"}, e, <<"disk-data", n, u>>,
